@@ -30,14 +30,16 @@ type Interpreter struct {
 
 	options []context.Option
 
-	ctx           *context.Context
-	process       *process.Process
-	cache         *cache.Cache
-	rateCounters  map[string]*value.Ratecounter
-	penaltyBoxes  map[string]*value.Penaltybox
-	callStack     []*ast.SubroutineDeclaration
-	Debugger      Debugger
-	IdentResolver func(v string) value.Value
+	ctx          *context.Context
+	process      *process.Process
+	cache        *cache.Cache
+	rateCounters map[string]*value.Ratecounter
+	penaltyBoxes map[string]*value.Penaltybox
+	callStack    []*ast.SubroutineDeclaration
+	// backend chosen by the director that req.backend points to (see createDirectorRequest)
+	directorBackend *value.Backend
+	Debugger        Debugger
+	IdentResolver   func(v string) value.Value
 
 	TestingState State
 }
@@ -591,7 +593,14 @@ func (i *Interpreter) ProcessFetch() error {
 
 	// Send request to backend
 	var err error
-	i.ctx.BackendResponse, err = i.sendBackendRequest(i.ctx.Backend)
+	backend := i.ctx.Backend
+	if backend != nil && backend.Director != nil && i.directorBackend != nil {
+		backend = i.directorBackend
+	}
+	if backend == nil || backend.Value == nil {
+		return exception.Runtime(nil, "No backend determined on FETCH")
+	}
+	i.ctx.BackendResponse, err = i.sendBackendRequest(backend)
 	if err != nil {
 		return errors.WithStack(err)
 	}
